@@ -174,6 +174,8 @@ def _group_cases(draw):
     present = sorted(set(pg) | set(ng))
     # explicitly given group names are "used as is and not sorted"
     given = draw(st.one_of(st.none(), st.permutations(present))) if present else None
+    if given is not None and len(given) >= 2 and draw(st.booleans()):
+        given = list(given)[: draw(st.integers(1, len(given) - 1))]  # only some of the groups are of interest
     return dict(s=s, pg=pg, ng=ng, thr=thr, touch=draw(st.sampled_from(["none", "getitem", "group_cm"])),
                 given=None if given is None else list(given))
 
@@ -203,7 +205,7 @@ def check_group(case):
                 "sym:group-swap-cm", f"config={sc}/{ec}")
         if case.get("given"):
             # swap() derives the name list afresh: rows are matched by name
-            require(sorted(sw.groups) == sorted(g.groups), "sym:group-swap-names",
+            require(set(g.groups) <= set(sw.groups), "sym:group-swap-names",
                     f"{list(sw.groups)} vs {list(g.groups)}")
             rows = [list(sw.groups).index(nm) for nm in g.groups]
         else:
